@@ -58,7 +58,11 @@ func c30Gen(t *rapid.T) c30Case {
 					continue
 				}
 				term := precTerms[rapid.IntRange(0, len(precTerms)-1).Draw(t, "precTerm")]
-				if len(a.Parts) > 1 && a.Parts[0].K == "t" && rapid.Bool().Draw(t, "firstTerm") {
+				if rapid.IntRange(0, 3).Draw(t, "anyTerm") == 0 {
+					// any terminal, also one without a precedence level (the marker then takes the
+					// rule out of precedence resolution; it is still part of what the tables were built from)
+					term = rapid.IntRange(1, c.G.T-1).Draw(t, "precAnyTerm")
+				} else if len(a.Parts) > 1 && a.Parts[0].K == "t" && rapid.Bool().Draw(t, "firstTerm") {
 					for _, pt := range precTerms {
 						if pt == a.Parts[0].Sym {
 							term = pt
@@ -307,8 +311,8 @@ func c30OnGenerated(c c30Case, res *batch.Result, r *ev.Recorder) *Failure {
 func TestC30(t *testing.T) {
 	p := &batchProp[c30Case]{
 		ID:          "C30",
-		Rule:        "C17's grammar and option generator with writeBison = true, plus 0..3 %left/%right/%nonassoc groups; compiled and generated in process (no build). The exported <name>.y is parsed (sections, %start, precedence lines, %token, `lhs :` blocks, `/*.marker*/` comments, %prec, %empty, action blocks skipped) and compared with grammar.Parser.Rules grouped by left-hand side in first-occurrence order (terminals by ID, nonterminals by name, markers ignored), Parser.Prec in order, the %token list (terminals without precedence, except eoi) and Parser.Inputs. Non-trivial: >=4 productions; distinct by grammar text.",
-		Quick:       600, Thorough: 12000, BatchSize: 200,
+		Rule:        "C17's grammar and option generator with writeBison = true, plus 0..3 %left/%right/%nonassoc groups and %prec markers on a quarter of the unannotated alternatives (a terminal of a group, the rule's first terminal, or - one in four - any terminal, also one without a precedence level); compiled and generated in process (no build). The exported <name>.y is parsed (sections, %start, precedence lines, %token, `lhs :` blocks, `/*.marker*/` comments, %prec, %empty, action blocks skipped) and compared with grammar.Parser.Rules grouped by left-hand side in first-occurrence order (terminals by ID, nonterminals by name, markers ignored), Parser.Prec in order, the %token list (terminals without precedence, except eoi) and Parser.Inputs. Non-trivial: >=4 productions; distinct by grammar text.",
+		Quick:       3000, Thorough: 30000, BatchSize: 200,
 		Gen:         c30Gen,
 		Unit:        func(c c30Case, name string) (batch.Unit, bool) { return batch.Unit{Name: name, TM: c.render(name)}, true },
 		OnGenerated: c30OnGenerated,
